@@ -56,8 +56,12 @@ class _TagFactory:
         self._cache = {}
 
     def __getattr__(self, name):
+        if name.startswith("__"):
+            # Not a tag (e.g. the __ptera__ protocol, copy and pickle hooks)
+            raise AttributeError(name)
         if name not in self._cache:
-            self._cache[name] = Tag(name)
+            # (setdefault: another thread may be creating the same tag)
+            self._cache.setdefault(name, Tag(name))
         return self._cache[name]
 
 
